@@ -285,9 +285,10 @@ def gen_globals(rng: random.Random, profile: str, tm: TempoMap, horizon: int, co
             globals_.append([t, kind, value])
             continue
         raw, kind, value = gen_event_text(rng, hostile)
+        if kind == "none":
+            continue  # inner quotes without a lyric/section prefix: don't-care (the statement is silent), never emitted
         lines.append(f"  {fmt_int(rng, t, hostile)} = E \"{raw}\"")
-        if kind != "none":
-            globals_.append([t, kind, value])
+        globals_.append([t, kind, value])
     return globals_, lines
 
 
